@@ -1486,6 +1486,40 @@ class Gen:
         else:
             self.do(f'get{m} {n} {show_key(key)}')
 
+    def copy_then_redefine(self, s):
+        """look keys up on a multi-phase indexer, copy() it, then change what a name means (group redefined, a phase
+        letter made an alias) and use the same keys on the COPY and on the original: neither may answer from what it
+        memoised before"""
+        rng = self.rng
+        multis = [j for j, (ix, sx) in enumerate(self.U.ixs) if sx == s and isinstance(ix, ind.MaterialIndexer)]
+        if not multis: return
+        n = rng.choice(multis)
+        ix = self.U.ixs[n][0]
+        names, groups = self.accepted(s)
+        mode = 'group' if (groups and GEN_REDEFINE_GROUPS and (rng.random() < 0.7 or not GEN_PHASE_LETTER_ALIAS)) else \
+               ('letter' if GEN_PHASE_LETTER_ALIAS else None)
+        if mode is None: return
+        keys = []
+        if mode == 'group':
+            grp = rng.choice(groups)
+            p_ = rng.choice(ix.phases)
+            keys = [grp, (p_, grp), (Ellipsis, grp), (p_, (rng.choice(names), grp)), (rng.choice(names), grp)]
+        else:
+            letter = rng.choice(ix.phases)
+            if self.U.pos_of(self.U.sets[s], letter) is not None: return
+            keys = [letter, (letter, rng.choice(names)), (letter, Ellipsis) if GEN_PHASE_ELLIPSIS else letter]
+        keys = rng.sample(keys, rng.randrange(1, len(keys) + 1))
+        for k in keys: self.do(f'get {n} {show_key(k)}')
+        self.do(f'copyix {n}')
+        c = len(self.U.ixs) - 1
+        if rng.random() < 0.3: self.do(f'copyix {c}')                      # a copy of the copy
+        if mode == 'group': self.group(s, name=grp)
+        else: self.do(f'alias {s} {enc(rng.choice(names))} {letter}')
+        for j in rng.sample([n, c, len(self.U.ixs) - 1], 3):
+            for k in keys:
+                if rng.random() < 0.25: self.do(f'set {j} {show_key(k)} {self.data_for(j, k)}')
+                self.do(f'get {j} {show_key(k)}')
+
     def reset_op(self, n=None):
         """reset_chemicals to another chemicals object that has every chemical the indexer carries; the keys looked up
         before are looked up again afterwards (the indexer must now use the memo of the new object)"""
@@ -1602,6 +1636,7 @@ def gen_small(g, rng):
             flows = [j for j, (ix_, _) in enumerate(g.U.ixs) if not isinstance(ix_, ind.SplitIndexer)]     # SplitIndexer.copy() raises AttributeError
             if flows: g.do(f'copyix {rng.choice(flows)}')
         elif r < 0.31: g.reset_op()
+        elif r < 0.33: g.copy_then_redefine(s)
         else: g.rw(rng.randrange(len(g.U.ixs)))
 
 
@@ -1704,6 +1739,7 @@ def gen_twins(g, rng):
         if rng.random() < 0.08:
             s = rng.choice(sets)
             g.group(s, name=rng.choice(gnames)) if GEN_REDEFINE_GROUPS else None
+    if rng.random() < 0.5: g.copy_then_redefine(rng.choice(sets))
     # an indexer moves to the twin package: from now on it must answer with the twin's names
     for _ in range(rng.randrange(0, 3)):
         g.reset_op(rng.choice([ixs[s][0] for s in sets] + [ixs[s][1] for s in sets]))
@@ -1919,6 +1955,12 @@ def corpus():
               'set 0 Solvent s:8', 'get 0 *', 'get 0 Solvent', 'set 1 l v:1,2,4', 'set 1 (l,Solvent) s:8', 'get 1 l', 'set 1 g v:1,2,4',
               'set 1 (*,S2) s:16', 'get 1 (*,*)', 'set 0 * v:1,2,4', 'setm 0 Solvent s:8', 'get 0 *', 'set 0 (Water,S2) v:3,16', 'get 0 *',
               'six 0', 'set 2 * s:1/2', 'set 2 Solvent s:1/4', 'get 2 *'], {'kind': 'corpus-zero-fraction'}))
+    cases.append(
+        # 18. a copy taken after lookups, then the names change: the copy must not answer from a private memo
+        Case([W, 'group 0 G Methanol,Ethanol 1,3', 'mix 0 lg', 'set 0 l v:1,2,4', 'set 0 g v:8,16,32', 'get 0 G', 'get 0 (l,G)', 'get 0 (*,(Water,G))',
+              'get 0 l', 'copyix 0', 'copyix 1', 'group 0 G Water,Methanol -', 'get 1 G', 'get 1 (l,G)', 'get 2 (*,(Water,G))', 'get 0 (l,G)',
+              'set 1 (l,G) s:8', 'get 1 l', 'get 0 l'] + (['alias 0 Ethanol l', 'get 1 l', 'get 2 l', 'get 0 l'] if GEN_PHASE_LETTER_ALIAS else []),
+             {'kind': 'corpus-copy-redefine'}) if GEN_REDEFINE_GROUPS else Case([W], {'kind': 'corpus-copy-redefine'}))
     if GEN_ALIASED_MASS_VALUE:
         cases.append(Case([W, 'cix 0', 'mix 0 lg', 'set 0 * v:1,2,4', 'setm 0 * r:0.0', 'get 0 *', 'set 1 l v:1,2,4', 'setm 1 l r:1.1', 'get 1 l',
                            'setm 1 (g,*) r:1.1', 'get 1 (*,*)'], {'kind': 'corpus-mass-alias'}))
